@@ -18,7 +18,11 @@ RULE = ("cases = scenarios (cfg line + steps) over the real client and server en
         "tenth random scenario uses MAX_CHANNEL in {2,3,4,6}; a scenario is non-trivial when at least two distinct "
         "oracle events occurred; distinct = distinct (cfg, step list); every case runs the real code at a verbosity taken from the rotation "
         "[0,0,3,0,2,0,13,1] shifted by the seed (13 = -vvv with a stderr whose write fails with EIO), stored in the "
-        "replay's cfg as v=N; the oracle does not depend on it; directed 0- and 1-byte datagrams in both directions")
+        "replay's cfg as v=N; the oracle does not depend on it; directed 0- and 1-byte datagrams in both directions; the listener's .family is rotated too (today's "
+        "socket constant / the pre-3.11 enum whose str() is 'AddressFamily.AF_INET' / a plain int, fam= in the cfg); "
+        "histories at scale: 1, 5, 64, 65, 128, 129, 300 (thorough: 1000) concurrently outstanding queries / "
+        "associations, all idle past the deadline or with a busy prefix kept alive, then accepts and late replies "
+        "(tables shown as count/sum digests on both sides above 48 entries)")
 MANIFEST = dict(
     level_text=("Machine-checked Lean 4 theorems (core only) over a statement-by-statement model of ondns/dns_done/"
                 "expire_connections, Mux.next_channel, resolvconf_nameservers' line rule, DnsProxy.__init__/try_send/callback, "
